@@ -968,6 +968,7 @@ func (c *UConn) handleRenegotiation() error {
 	c.isHandshakeComplete.Store(false)
 
 	// [uTLS section begins]
+	c.sessionController.onRenegotiation()
 	if err = c.BuildHandshakeState(); err != nil {
 		return err
 	}
